@@ -39,6 +39,16 @@ CLAIMED = {
    text="Histories of up to two assignments over every declared cell type, written through every kind of alias (binding, array element, struct field, cell in a cell, function parameter) with all 12 operators and failing operands; after every step the cell is read through all aliases. TLC checks the cell laws on the specification; the implementation must reproduce every read tuple, every assignment value and the final content (also after a failing update). In addition every write event recorded by the hook under the cell's lock (op, old, rhs, new) is consumed by one action of the trace specification: new = op(old, rhs) by the specification's operator, new in the declared type.",
    design_ref="§3.6, §3.7, §6 C13",
    note="machine ints < 2^30; the order of writes to one cell is not re-validated from the trace (the replayed histories cover it)"),
+ "C01": dict(
+   technique="trace validation: hook events recorded from the real interpreter (one per instruction result, argument, function result, cell allocation/write, final result, each with the static type the implementation computed) are consumed one by one by the TLA+ trace specification Trace_Sound.tla, whose judgement is Types!Member (by tag and by contents); the programs come from the TLC-enumerated Lang suites and a seeded typed-program generator",
+   text="Every program of the enumerated suites and of a seeded generator (aimed at unions, empty arrays, hidden tags, iterators pulled past exhaustion, type-changing maps, reducers over run-time-empty arrays, slices, width subtyping, functions falling off the end; functions are called with boundary inhabitants of their parameter types) is run with the hooks on. Each recorded event is one step of the trace specification: the value must be a member of the static type the implementation attached to the instruction / parameter / function result / cell / program, judged by the specification's membership relation (which TLC model-checks against the subtype laws in C10). The specification's own evaluation of the same programs is checked for CellTyped.",
+   design_ref="§3.1, §3.6, §4, §6 C01",
+   note="static types are taken from the implementation (never compared with a second type system); placeholder-typed library closures are not judged; values of exhausted iterators are a known finding; bounded by the programs generated (700 quick / 6000 thorough + suites)"),
+ "C02": dict(
+   technique="the specification's status machine (Lang.tla: a run ends in a value or one of six documented errors; a panic has no action) applied to every recorded run of the enumerated suites and of generated programs, with the specification's predicted outcome as oracle; unbound-parameter events validated by Trace_Sound.tla",
+   text="Every run of the C01 corpus must end in an outcome of the specification's status machine: a value or one of the six documented run-time errors, and the one the specification predicts. Panics (observed through catch_unwind, with message) and parameter names that do not resolve at function entry are violations; fuel/depth budget exhaustion is inconclusive. Function values defined by the programs are called with boundary inhabitants ([] for arrays, every union member).",
+   design_ref="§3.6, §6 C02",
+   note="aborts (stack overflow) are outside the claim; bounded by the programs generated"),
 }
 
 NOT_YET = {}
